@@ -118,7 +118,7 @@ theorem whole_global_refs_resolve (ls : List Bytes) (m : Module) (h : parse ls =
               · cases h
 
 /-- non-vacuity: the module `wholeSample` (its function `@h` mentions the global variable `@c` twice and the function `@f` twice (once as the callee of a call)) is accepted -/
-example : (parse (printModule (fun _ => false) C01.wholeSample)).map (fun m => m.funcs.flatMap Core3.globUses) = some [[99], [102], [99], [102]] := by
+example : (parse (printModule (fun _ => false) C01.wholeSample)).map (fun m => m.funcs.flatMap Core3.globUses) = some [[99], [102], [99], [102], [101, 120, 116]] := by
   decide +kernel
 
 end Llir.Props.C04
